@@ -31,6 +31,7 @@ var extraWorkloads = []func() Workload{
 	func() Workload { return newHTLCWorkload() },
 	func() Workload { return newFarmWorkload() },
 	func() Workload { return newServiceWorkload() },
+	func() Workload { return newTokenWorkload() },
 }
 
 func allWorkloads() []Workload {
@@ -50,8 +51,11 @@ const allAccounts = 12
 
 // allOptions is the single source of the rig configuration of multi-module chains; replicas use it too.
 func allOptions(seed string, ws []Workload, db dbm.DB, genesisTime time.Time) rig.Options {
+	// the token module talks to the store-backed harness EVM, whose state commits, reverts and restarts with the chain
+	evm := newTkEVM()
 	return rig.Options{
 		Seed: seed, NumAccounts: allAccounts, Balances: StdBalances(), DB: db, GenesisTime: genesisTime,
+		EVM: evm, ExtraStoreKeys: evm.storeKeys(),
 		GenesisMutator: func(cdc codec.Codec, gs map[string]json.RawMessage) {
 			for _, w := range ws {
 				w.Genesis(cdc, gs)
